@@ -248,7 +248,8 @@ def rooted(prog, bad):
         elif b[0] == 'global-sink-order' and (badn or bade):
             continue
         out.append(b)
-    return out or bad
+    # inside a feedback cycle every node is downstream of every other: name the first one in creation order
+    return out or bad[:1]
 
 
 def compare_metadata(prog, res):
